@@ -178,7 +178,10 @@ ExtractContract(r, g, s, I, mustEdges) ==
 GraphF(g, s)      == FromViews({n \in NodeSet(g) : n.id \in GraphIds(g, s)}, Induced(g, GraphIds(g, s)), {s})
 SiblingsF(g, s)   == FromViews({n \in NodeSet(g) : n.id \in SiblingIds(g, s)},
                                {t \in Induced(g, SiblingIds(g, s)) : t[1] = s}, {s})
-DescendantsF(g, s, k) == FromViews({n \in NodeSet(g) : n.id \in Reach(g, s, k)}, Induced(g, Reach(g, s, k)), {s})
+\* the start node is level one: a depth below that selects nothing (repaired in fix 584a978; before it the result named
+\* the start node as root without containing it)
+DescendantsF(g, s, k) == IF k < 1 THEN EmptyList
+                         ELSE FromViews({n \in NodeSet(g) : n.id \in Reach(g, s, k)}, Induced(g, Reach(g, s, k)), {s})
 
 (* ------------------------------- lookups ------------------------------- *)
 Field(n, f, dflt) == IF f \in DOMAIN n THEN n[f] ELSE dflt
